@@ -250,6 +250,151 @@ def register(ex):
     ex.probe("opsOpCountPerInstance", "Bool", "true",
              "utils/ops.py:select_start_nodes (op)  `num_feasible = feasible.sum(-1, keepdim=True).clamp(min=1)` (per instance)", op_count_per_instance)
 
+    # -------------------------------------------------------------------- round 2: layout / selector / gather tokens
+    DEC = "rl4co/utils/decoding.py"
+    AMD = "rl4co/models/zoo/am/decoder.py"
+
+    def _rearr_patterns(rel, qual):
+        tree = ex.parse(rel)
+        fn = ex.find_function(tree, qual) if tree else None
+        if fn is None:
+            return None
+        out = []
+        for n in ast.walk(fn):
+            if (isinstance(n, ast.Call) and ast.unparse(n.func) == "rearrange" and len(n.args) >= 2
+                    and isinstance(n.args[1], ast.Constant) and isinstance(n.args[1].value, str)):
+                out.append((n.lineno, " ".join(n.args[1].value.split())))
+        return [v for _, v in sorted(out)]
+
+    def replica_major(rel, qual, want, other, count):
+        """all `rearrange` patterns of the function are `want` (true) / one is the instance-major `other` (false)"""
+        def run():
+            ps = _rearr_patterns(rel, qual)
+            if ps is not None and not ps and count == 1:
+                # no rearrange at all: a plain row-major flatten of the [batch, n] result is the instance-major layout
+                tree = ex.parse(rel)
+                fn = ex.find_function(tree, qual)
+                flat = [n for n in ast.walk(fn) if isinstance(n, ast.Call) and isinstance(n.func, ast.Attribute)
+                        and ((n.func.attr in ("reshape", "view") and [ast.unparse(a) for a in n.args] == ["-1"])
+                             or (n.func.attr == "flatten" and not n.args))
+                        and ast.unparse(n.func.value).startswith("selected")]
+                return "false" if flat else None
+            if ps is None or len(ps) != count:
+                return None
+            if all(p_ == want for p_ in ps):
+                return "true"
+            if all(p_ in (want, other) for p_ in ps):
+                return "false"
+            return None
+        return run
+
+    def cache_uses_batchify():
+        tree = ex.parse(AMD)
+        fn = ex.find_function(tree, "PrecomputedCache.batchify") if tree else None
+        if fn is None:
+            return None
+        apps = [n for n in ast.walk(fn) if isinstance(n, ast.Call) and isinstance(n.func, ast.Attribute) and n.func.attr == "append"
+                and len(n.args) == 1 and isinstance(n.args[0], ast.Call)]
+        if not apps:
+            return None
+        ok = all(ast.unparse(a.args[0].func) == "batchify" and [ast.unparse(x) for x in a.args[0].args] == ["emb", "num_starts"]
+                 and not a.args[0].keywords for a in apps)
+        return "true" if ok else "false"
+
+    def am_static_unbatchify():
+        tree = ex.parse(AMD)
+        fn = ex.find_function(tree, "AttentionModelDecoder.forward") if tree else None
+        if fn is None:
+            return None
+        for n in ast.walk(fn):
+            if isinstance(n, ast.Assign) and len(n.targets) == 1 and ast.unparse(n.targets[0]) == "td" and isinstance(n.value, ast.Call):
+                c = n.value
+                if ast.unparse(c.func) == "unbatchify" and [ast.unparse(a) for a in c.args] == ["td", "num_starts"]:
+                    return "true"
+                return "false"
+        return None
+
+    def hook_selector(qual):
+        """the default forced-start call of a pre_decoder_hook is the ENV METHOD `env.select_start_nodes(td, num_starts=…)`
+        (true) / some other callable such as the generic helper (false)"""
+        def run():
+            tree = ex.parse(DEC)
+            fn = ex.find_function(tree, qual) if tree else None
+            if fn is None:
+                return None
+            cands = []
+            for n in ast.walk(fn):
+                if (isinstance(n, ast.Assign) and len(n.targets) == 1 and ast.unparse(n.targets[0]) == "action"
+                        and isinstance(n.value, ast.Call) and ast.unparse(n.value.func) != "self.select_start_nodes_fn"):
+                    cands.append(n.value)
+            if len(cands) != 1:
+                return None
+            c = cands[0]
+            if ast.unparse(c.func) == "env.select_start_nodes" and len(c.args) == 1 and ast.unparse(c.args[0]) == "td" \
+                    and len(c.keywords) == 1 and c.keywords[0].arg == "num_starts":
+                return "true"
+            return "false"
+        return run
+
+    def _gbi():
+        tree = ex.parse(REL)
+        return ex.find_function(tree, "gather_by_index") if tree else None
+
+    def gather_default(name, ty):
+        def run():
+            fn = _gbi()
+            if fn is None:
+                return None
+            args = fn.args.args
+            defaults = fn.args.defaults
+            named = dict(zip([a.arg for a in args[len(args) - len(defaults):]], defaults))
+            v = named.get(name)
+            if not isinstance(v, ast.Constant):
+                return None
+            if ty is bool and isinstance(v.value, bool):
+                return "true" if v.value else "false"
+            if ty is int and type(v.value) is int and v.value >= 0:
+                return str(v.value)
+            return None
+        return run
+
+    def gather_squeeze_size():
+        fn = _gbi()
+        if fn is None:
+            return None
+        for n in ast.walk(fn):
+            if isinstance(n, ast.Assign) and len(n.targets) == 1 and ast.unparse(n.targets[0]) == "squeeze" and isinstance(n.value, ast.BoolOp) \
+                    and isinstance(n.value.op, ast.And) and len(n.value.values) == 2:
+                a, b = n.value.values
+                if ast.unparse(b) != "squeeze":
+                    a, b = b, a
+                if (ast.unparse(b) == "squeeze" and isinstance(a, ast.Compare) and len(a.ops) == 1 and isinstance(a.ops[0], ast.Eq)
+                        and ast.unparse(a.left).replace(" ", "") == "idx.size(dim)" and isinstance(a.comparators[0], ast.Constant)
+                        and type(a.comparators[0].value) is int and a.comparators[0].value >= 0):
+                    return str(a.comparators[0].value)
+        return None
+
+    ex.probe("opsOpReplicaMajor", "Bool", "true", "utils/ops.py:select_start_nodes (op)  `rearrange(selected, \"b n -> (n b)\")`",
+             replica_major(REL, "select_start_nodes", "b n -> (n b)", "b n -> (b n)", 1))
+    ex.probe("opsSampleNReplicaMajor", "Bool", "true", "utils/ops.py:sample_n_random_actions  `rearrange(selected, \"b n -> (n b)\")`",
+             replica_major(REL, "sample_n_random_actions", "b n -> (n b)", "b n -> (b n)", 1))
+    ex.probe("amFlattenReplicaMajor", "Bool", "true",
+             "am/decoder.py:AttentionModelDecoder.forward  `rearrange(logits|mask, \"b s l -> (s b) l\")`",
+             replica_major(AMD, "AttentionModelDecoder.forward", "b s l -> (s b) l", "b s l -> (b s) l", 2))
+    ex.probe("amStaticUnbatchify", "Bool", "true", "am/decoder.py:AttentionModelDecoder.forward  `td = unbatchify(td, num_starts)`",
+             am_static_unbatchify)
+    ex.probe("amCacheUsesBatchify", "Bool", "true", "am/decoder.py:PrecomputedCache.batchify  `new_embs.append(batchify(emb, num_starts))`",
+             cache_uses_batchify)
+    ex.probe("decMultistartEnvSelect", "Bool", "true",
+             "utils/decoding.py:DecodingStrategy.pre_decoder_hook  `action = env.select_start_nodes(td, num_starts=self.num_starts)`",
+             hook_selector("DecodingStrategy.pre_decoder_hook"))
+    ex.probe("decBeamEnvSelect", "Bool", "true",
+             "utils/decoding.py:BeamSearch.pre_decoder_hook  `action = env.select_start_nodes(td, num_starts=self.beam_width)`",
+             hook_selector("BeamSearch.pre_decoder_hook"))
+    ex.probe("opsGatherSqueezeDefault", "Bool", "true", "utils/ops.py:gather_by_index  default `squeeze=True`", gather_default("squeeze", bool))
+    ex.probe("opsGatherDimDefault", "Nat", "1", "utils/ops.py:gather_by_index  default `dim=1`", gather_default("dim", int))
+    ex.probe("opsGatherSqueezeSize", "Nat", "1", "utils/ops.py:gather_by_index  `squeeze = idx.size(dim) == 1 and squeeze`", gather_squeeze_size)
+
     # ------------------------------------------------------------------------------------------ C17
     DS = "rl4co/data/dataset.py"
     BL = "rl4co/models/rl/reinforce/baselines.py"
@@ -434,6 +579,22 @@ def register(ex):
             return "1"  # everything padded on the left: encoded as a non-zero left amount
         return None
 
+    def init_rows_in_order():
+        fn = _fn(DS, "TensorDictDataset.__init__")
+        if fn is None:
+            return None
+        lcs = [n for n in ast.walk(fn) if isinstance(n, ast.ListComp)]
+        if len(lcs) != 1 or len(lcs[0].generators) != 1 or lcs[0].generators[0].ifs:
+            return None
+        lc = lcs[0]
+        if not (isinstance(lc.elt, ast.DictComp) and _u(lc.elt.key) == "key" and _u(lc.elt.generators[0].iter) == "td.items()"):
+            return None
+        i = _u(lc.generators[0].target)
+        ok = _u(lc.elt.value) == f"value[{i}]" and _u(lc.generators[0].iter) == "range(self.data_len)"
+        return "true" if ok else "false"
+
+    ex.probe("dsInitRowsInOrder", "Bool", "true",
+             "data/dataset.py:TensorDictDataset.__init__  `[{key: value[i] for key, value in td.items()} for i in range(self.data_len)]`", init_rows_in_order)
     ex.probe("dsExtraWriteUnconditional", "Bool", "true",
              "data/dataset.py:ExtraKeyDataset.__getitem__  `data[self.key_name] = self.extra[idx]` as a plain body statement", extra_uncond)
     ex.probe("dsExtraIndexShift", "Int", "0", "data/dataset.py:ExtraKeyDataset.__getitem__  index of `self.extra[idx]`", extra_shift)
